@@ -420,7 +420,11 @@ class Types:
                     self._bind_target(t, n.value, name, out, "assign")
             elif isinstance(n, ast.AnnAssign):
                 if isinstance(n.target, ast.Name) and n.target.id == name:
-                    out.append(("ann", n))
+                    if n.value is not None:
+                        # `x: T = v` binds like `x = v`
+                        self._bind_target(n.target, n.value, name, out, "assign")
+                    else:
+                        out.append(("ann", n))
             elif isinstance(n, ast.AugAssign):
                 if isinstance(n.target, ast.Name) and n.target.id == name:
                     out.append(("aug", n))
@@ -463,6 +467,9 @@ class Types:
             self._cuts += 1
             return EMPTY
         binds = self.local_bindings(fi, name)
+        # annotated assignments bind like assignments; their annotation still types the name
+        binds = binds + [("anntype", n) for n in self.nodes_in(fi, ast.AnnAssign)
+                         if isinstance(n.target, ast.Name) and n.target.id == name and n.value is not None]
         if not binds:
             if name in fi.locals_funcs:
                 r = frozenset([("func", self.fkey(fi.locals_funcs[name]))])
@@ -485,7 +492,7 @@ class Types:
                     out.add(("seq", EMPTY))
                 elif kind == "kwarg":
                     out.add(("map", EMPTY))
-                elif kind == "ann":
+                elif kind in ("ann", "anntype"):
                     out |= self.ann(b.annotation, m, fi.cls, fi)
                 elif kind == "aug":
                     out |= self.type_of(b.value, fi, m)
